@@ -140,11 +140,20 @@ def items(tier):
     for a, o in combos:
         for kind in ("cmd", "exp"):
             out.append({"case": {"g": [[]], "kinds": [kind], "jobs": 1, "args": {"0": a} if a else {}, "options": {"0": o} if o else {}}, "bound": 0})
+    # real-bash conformance: the same contract observed by real bash processes started by a real `cond run`
+    for pk in (["", "", ""], ["", "a", "a/b"], ["a/b", "", "a"]):
+        for g in rungrid.graphs_upto((3,)):
+            for kinds in (["cmd", "exp", "cmd"], ["combine", "exp", "exp"]):
+                out.append({"case": {"g": g, "kinds": kinds, "pars": [False] * 3, "jobs": 1, "pkgs": pk,
+                                     "args": {"1": ["x", 1, True]}, "options": {"2": {"k": "v", "n": 1.5}}}, "bound": 0, "conform": True})
+    for a, o in (([], {}), (["a", 0, -1, 1.5, True, False], {"k": "a", "z": False, "m": 0}), (["x"], {"only": True})):
+        out.append({"case": {"g": [[]], "kinds": ["exp"], "jobs": 1, "args": {"0": a} if a else {}, "options": {"0": o} if o else {}},
+                    "bound": 0, "conform": True})
     return out
 
 
 def run_item(item, tier):
-    return rungrid.explore_case(item["case"], 0, [mon], max_exec=1000)
+    return rungrid.explore_case(item["case"], 0, [mon], max_exec=1000, conform=bool(item.get("conform")))
 
 
 def replay(artefact):
